@@ -8,7 +8,7 @@ ID="$1"; K="$2"; PKG="$3"; SRC="/tmp/seed-$ID/out/$K"
 NAME="$ID-$K"
 SCR=$(mktemp -d /tmp/ssovc-seed.XXXXXX)
 trap 'rm -rf "$SCR"' EXIT
-rsync -a --exclude .git /repo/ "$SCR/repo/"
+rsync -a --exclude .git "${SEED_REPO:-/repo}/" "$SCR/repo/"
 LOG="$SCR/log.txt"
 DEMO="$SCR/repo/$PKG/zz_seed_demo_test.go"
 cp "$SRC/demo_test.go" "$DEMO"
@@ -21,23 +21,24 @@ rm -f "$DEMO"
 NEWFAIL=$(grep -E "^--- FAIL" "$SCR/suite.log" | grep -v "TestRoundTrip\|TestNewStatsd\|TestGracefulShutdown" | tr '\n' ' ')
 export VERIF_SCRATCH_OUT="$SCR/out"; mkdir -p "$VERIF_SCRATCH_OUT"
 VERIF_REPO="$SCR/repo" "${SSOVC_BIN:-bin/ssovc}" check -property "$ID" -tier quick > "$SCR/check.log" 2>&1; RC=$?
-VIOL=$(grep '^VIOLATION' "$SCR/check.log" | sed 's/.*obligation=//' | tr '\n' ' ')
+VIOL=$(grep -a '^VIOLATION' "$SCR/check.log" | sed 's/.*obligation=//' | tr '\n' ' ')
 echo "$NAME: demo without=$RC_WITHOUT with=$RC_WITH suite-new-failures=[$NEWFAIL] check-exit=$RC obligations=[$VIOL]"
-[ $RC -eq 2 ] && grep UNDECIDED "$SCR/check.log"
+[ $RC -eq 2 ] && grep -a UNDECIDED "$SCR/check.log"
 if [ $RC_WITHOUT -eq 0 ] && [ $RC_WITH -ne 0 ] && [ -z "$NEWFAIL" ]; then
-  mkdir -p "seeded/$NAME"
-  cp "$SRC/patch.diff" "seeded/$NAME/patch.diff"
-  cp "$SRC/demo_test.go" "seeded/$NAME/demo_test.go"
-  [ -f "$SRC/notes.md" ] && cp "$SRC/notes.md" "seeded/$NAME/notes.md"
-  python3 - "$NAME" "$ID" "$PKG" "$RC" "$VIOL" <<'PY'
+  OUT="${SEED_OUT:-seeded}"
+  mkdir -p "$OUT/$NAME"
+  cp "$SRC/patch.diff" "$OUT/$NAME/patch.diff"
+  cp "$SRC/demo_test.go" "$OUT/$NAME/demo_test.go"
+  [ -f "$SRC/notes.md" ] && cp "$SRC/notes.md" "$OUT/$NAME/notes.md"
+  python3 - "$NAME" "$ID" "$PKG" "$RC" "$VIOL" "$OUT" <<'PY'
 import json,sys
-name,pid,pkg,rc,viol=sys.argv[1:6]
-notes=open(f'seeded/{name}/notes.md').read() if __import__('os').path.exists(f'seeded/{name}/notes.md') else ''
+name,pid,pkg,rc,viol,out=sys.argv[1:7]
+notes=''
 meta={"property":pid,"breaks":"see notes.md","needs_to_manifest":"see notes.md (trigger section)","demo_package":pkg,
  "validated":{"patch_applies_to_repo_head":True,"go_build":"ok","existing_suite":"no new failures (TestRoundTrip is a baseline failure)","demo_without_change":"pass","demo_with_change":"fail"},
  "ran":["go test -vet=off -count=1 -run Seed ./%s/ (without and with patch, in a scratch copy)"%pkg,"go test -vet=off -count=1 ./internal/...","bin/ssovc check -property %s -tier quick (VERIF_REPO=scratch copy)"%pid],
  "check_exit":int(rc),"failed_obligations":viol.split(),"detected":rc=="1"}
-json.dump(meta,open(f'seeded/{name}/meta.json','w'),indent=1)
+json.dump(meta,open(f'{out}/{name}/meta.json','w'),indent=1)
 PY
 else
   echo "$NAME: NOT KEPT (validation failed)"; tail -n 5 "$SCR/without.log"; tail -n 5 "$SCR/with.log"
